@@ -3,3 +3,4 @@ import ButlerModel.Props.C04
 import ButlerModel.Props.C11
 import ButlerModel.Props.C12
 import ButlerModel.Props.C15
+import ButlerModel.Props.C17
